@@ -405,10 +405,21 @@ pub fn classify(ctx: &Context, line: &str, ans_bits: (u64, u64)) -> Classified {
             }
             it.size(e);
         }
-        Query::Convert(e, conv, _, _) => {
-            it.size(e);
+        Query::Convert(e, conv, _, digits) => {
+            let mut bits = it.size(e);
             if let Conversion::Expr(t) = conv {
-                it.size(t);
+                let b = it.size(t);
+                bits = (bits.0 + b.1, bits.1 + b.0);
+            }
+            // long division: every requested digit costs a pass over the value
+            // (`2 -> digits 10000 100062^1000`, 20000 digits of a 17000-bit fraction, takes minutes)
+            let requested: u64 = match digits {
+                rink_core::output::Digits::Digits(n) => (*n).min(1 << 20),
+                rink_core::output::Digits::FullInt | rink_core::output::Digits::Fraction => 1000,
+                _ => 8,
+            };
+            if it.why.is_none() && requested.saturating_mul(bits.0.max(bits.1)) > 10_000_000 {
+                it.flag("requested digits times the size of the value above 10^7 (quadratic long division)");
             }
         }
         Query::UnitsFor(e) => {
